@@ -13,6 +13,7 @@ CONSTANTS Sizes,      \* value sizes to insert (some above the inline limit)
           AllowPop,   \* explore PopIterate
           GrowUntil,  \* simulation walks: only inserts / overwrites before this step ...
           ShrinkFrom, \* ... and only removals / overwrites from this step on (0, large = no phases)
+          AppendOnly, \* explore only appends: every element-size stream (bulk-build sources, C17)
           Persist,    \* also explore commit (both kinds, 1..3 workers), cache drop and crash (abandon + reopen) events
           EmitDepth   \* simulation: print the history of a walk when it reaches this length (0 = off)
 
@@ -76,6 +77,7 @@ Big == IF WithReads THEN {-1, -2} ELSE {}
 Growing == Len(hist) < GrowUntil
 Shrinking == Len(hist) >= ShrinkFrom
 Next ==
+  IF AppendOnly THEN \E s \in Sizes : Insert(N, s) ELSE
   \/ ~Shrinking /\ \E i \in (0..(IF WithReads THEN N + 1 ELSE N)) \cup Big, s \in Sizes : Insert(i, s)
   \/ Shrinking /\ N = 0 /\ \E s \in Sizes : Insert(0, s)   \* never deadlock before EmitDepth
   \/ Growing /\ \E s \in Sizes : Insert(N, s)          \* appends: a second insert disjunct biases walks towards growth
